@@ -842,7 +842,11 @@ def check(ctx):
     from . import c03
     ctx.rule("R01.6", "equality of objects and types, which every composition guard relies on, is structural (C03 on the Ob / Ty classes)")
     sub = Ctx("C03", m, ctx.tier)
-    c03.check(sub)
+    c03_error = None
+    try:
+        c03.check(sub)
+    except AnalysisError as e:          # what C03 decided before it had to stop still counts
+        c03_error = str(e)
     tycls = [c for c in m.classes.values() if any(k.q in ("discopy.cat.Ob", "discopy.monoidal.Ty") for k in m.mro(c))]
     n6 = 0
     for c in sorted(tycls, key=lambda c: c.q):
@@ -854,6 +858,8 @@ def check(ctx):
         ctx.ob("R01.6", c.q + ":equality", not bad, found=["%s %s: %s" % (o.rule, o.construct, str(o.found)[:80]) for o in bad][:2] or "%d obligations of C03 discharged" % len(mine),
                required="two objects / types are equal only if they agree on every field that distinguishes wires (name, winding, dimension, …)", mod=c.mod, node=c.node,
                sig="type-eq:" + ",".join(sorted({o.construct.rsplit(":", 1)[-1] for o in bad})))
+    if c03_error and not any(not o.ok for o in ctx.obs if o.rule == "R01.6"):
+        raise AnalysisError("dependency C03 of C01 could not be analysed: %s" % c03_error)
     ctx.need(n6 >= 3 and not sub.broken, "C03 did not decide the equality of at least 3 object / type classes (%d)" % n6)
     ctx.floor("R01.0", 20)
     ctx.floor("R01.1", 18)
